@@ -565,6 +565,95 @@ def candidate_env(m):
     return env
 
 
+def handover_status_harness():
+    """real GENBase.v_numeric on a real System with symbolic statuses: exactly the static generators that an in-service machine
+    replaces are switched off; every other static generator keeps its status (two machines share one static generator)"""
+    from vlib import cases, pysym, harness as H
+    from vlib.harness import AND, OR, EQ, ITE
+    import andes.models.synchronous.genbase as GB
+
+    def h(I):
+        ss = cases.build([1, 2, 3], lines=[(1, 2), (2, 3), (1, 3)], slacks=[dict(bus=1, idx=30)], pvs=[dict(bus=2, idx=10), dict(bus=3, idx=20)],
+                         setup=False, extra=[('GENCLS', dict(bus=2, gen=10, idx='A', M=5.0, gammap=0.5, gammaq=0.5)),
+                                             ('GENCLS', dict(bus=1, gen=30, idx='C', M=5.0)),
+                                             ('GENCLS', dict(bus=2, gen=10, idx='B', M=5.0, gammap=0.5, gammaq=0.5))])
+        ss.setup()
+        um = [I.real(f'machine_{n}_in_service') for n in 'ACB']
+        us = {10: I.real('static_10_in_service'), 20: I.real('static_20_in_service'), 30: I.real('static_30_in_service')}
+        for v in um + list(us.values()):
+            I.assume(OR(EQ(v, 0, tol=0.0), EQ(v, 1, tol=0.0)))
+        ss.GENCLS.u.v = I.arr(*[f'machine_{n}_in_service' for n in 'ACB'])
+        ss.PV.u.v = I.arr('static_10_in_service', 'static_20_in_service')
+        ss.Slack.u.v = I.arr('static_30_in_service')
+        GB.GENBase.v_numeric(ss.GENCLS)
+        after = {10: ss.PV.u.v[0], 20: ss.PV.u.v[1], 30: ss.Slack.u.v[0]}
+        replaced = {10: OR(EQ(um[0], 1, tol=0.0), EQ(um[2], 1, tol=0.0)), 20: False, 30: EQ(um[1], 1, tol=0.0)}
+        out = []
+        for g in (10, 20, 30):
+            want = ITE(replaced[g], 0.0, us[g]) if replaced[g] is not False else us[g]
+            out.append((f'static generator {g} is off afterwards iff an in-service machine replaces it, otherwise unchanged', EQ(after[g], want, tol=0.0)))
+        return out
+    return H.run('GENBase.v_numeric on symbolic statuses', h, max_paths=2000, region=lambda v, c: c)
+
+
+def replaced_static_harness(mname):
+    """the real v_numeric of a model that takes over a static generator / load, on symbolic statuses: the static devices switched
+    off are exactly those named by a device that is itself in service"""
+    from vlib import pysym, harness as H
+    from vlib.harness import AND, OR, EQ, IFF
+    import types
+
+    def h(I):
+        ss = modelsmt.system()
+        m = ss.models[mname]
+        f = type(m).v_numeric
+        link = 'pq' if 'pq' in m.params else 'gen'
+        group = 'StaticLoad' if link == 'pq' else 'StaticGen'
+        u = I.arr('device_0_in_service', 'device_1_in_service', 'device_2_in_service')
+        for v in u:
+            I.assume(OR(EQ(v, 0, tol=0.0), EQ(v, 1, tol=0.0)))
+        off = []
+        fake = types.SimpleNamespace(n=3, u=types.SimpleNamespace(v=u), system=types.SimpleNamespace(groups={group: types.SimpleNamespace(
+            set=lambda src, idx, attr, value: off.append((src, list(np.ravel(idx)), attr, value)))}))
+        setattr(fake, link, types.SimpleNamespace(v=['s0', 's1', 's0']))       # devices 0 and 2 share one static device
+        f(fake)
+        hit = {'s0': False, 's1': False}
+        ok_value = True
+        for src, idx, attr, value in off:
+            ok_value = ok_value and src == 'u' and attr == 'v' and (not np.ndim(value)) and value == 0
+            for i in idx:
+                hit[i] = True
+        return [('static devices are switched off through u := 0 only', ok_value),
+                ('static device s0 is switched off iff device 0 or device 2 is in service', IFF(hit['s0'], OR(EQ(u[0], 1, tol=0.0), EQ(u[2], 1, tol=0.0)))),
+                ('static device s1 is switched off iff device 1 is in service', IFF(hit['s1'], EQ(u[1], 1, tol=0.0)))]
+    return H.run(f'{mname}.v_numeric on symbolic statuses', h, max_paths=200, region=lambda v, c: c)
+
+
+def _replaced_static_job(mn):
+    try:
+        return replaced_static_harness(mn)
+    except Exception:
+        return [dict(kind='error', msg=f'{mn}.v_numeric harness: ' + traceback.format_exc()[-400:])]
+
+
+def models_replacing_static():
+    """models whose v_numeric switches a static generator / load off (found by reading the source of the current tree)"""
+    import inspect
+    ss = modelsmt.system()
+    out = []
+    for mn, m in ss.models.items():
+        f = getattr(type(m), 'v_numeric', None)
+        if f is None:
+            continue
+        try:
+            src = inspect.getsource(f)
+        except (OSError, TypeError):
+            continue
+        if "groups['StaticGen'].set(src='u'" in src or "groups['StaticLoad'].set(src='u'" in src:
+            out.append(mn)
+    return out
+
+
 # ---------------------------------------------------------------------------------------------- the check
 SCENARIOS = ('online', 'any')        # every device in service / every status an arbitrary 0 or 1 (offline devices)
 SCOPE = os.path.join(os.path.dirname(os.path.abspath(__file__)), 'c05_scope.json')
@@ -662,6 +751,12 @@ def main():
         if thorough and sc == 'online':
             jobs += rest            # undecided obligations: one short attempt each, reported in the evidence, never claimed
     res = core.pmap(_job, jobs)
+    ck.merge(handover_status_harness())
+    repl = models_replacing_static()
+    ck.merge(core.pmap(_replaced_static_job, repl))
+    ck.extra['models_replacing_a_static_device'] = repl
+    import andes.models.synchronous.genbase as GBm
+    ck.encodes(GBm.GENBase.v_numeric)
     undecided = []
     nproved = 0
     for x in res:
